@@ -108,6 +108,10 @@ def pattern_settings():
         mk([C(min_=2, rep=False)], [C([1]), C([1]), C([1])], name='partitioning min 2 1x3'),
         mk([C(min_=0, rep=False), C(min_=0, rep=False), C(min_=0, rep=False)],
            [C(min_=0, rep=False), C(min_=0, rep=False), C(min_=0, rep=False)], excluded=[(0, 0), (1, 1), (2, 2)], name='connecting directed'),
+        mk([C(min_=0, rep=True), C(min_=0, rep=False)], [C(min_=0, rep=False), C(min_=0, rep=True)], excluded=[(0, 0), (1, 1)],
+           name='connecting 2x2 mixed repeatability'),
+        mk([C(min_=0, rep=False), C(min_=0, rep=False)], [C(min_=0, rep=False), C(min_=0, rep=False)], excluded=[(0, 0), (1, 1)],
+           name='connecting 2x2'),
         mk([C([1]), C([1]), C([1])], [C([1]), C([1]), C([1])], name='permuting 3x3'),
         mk([C([1]), C([1])], [C([1]), C([1])], name='permuting 2x2'),
         mk([C([2])], [C([0, 1]), C([0, 1]), C([0, 1])], name='unordered combining 2 of 3'),
@@ -115,6 +119,7 @@ def pattern_settings():
         mk([C([0, 2])], [C([1]), C([0, 1])], name='non-contiguous degree list'),
         mk([C(min_=1)], [C([0, 1, 2]), C([0, 1, 2, 3])], name='11 matrices (recursive enumeration: 1010b)'),
         mk([C(min_=0)], [C([0, 1, 2, 3]), C([0, 1, 2, 3, 4])], mcp=4, name='20 matrices (recursive enumeration: 10011b)'),
+        mk([C(min_=0), C(min_=0), C(min_=0)], [C(min_=0)], mcp=2, name='27 matrices (recursive enumeration, exact power of 3)'),
         mk([C(min_=2), C(min_=2)], [C(min_=0), C(min_=0)], name='assigning min 2 repeatable'),
         mk([C(min_=0), C(min_=0)], [C(min_=2), C(min_=2)], name='assigning min 2 repeatable (targets)'),
         mk([C([1])], [C([1])], name='exactly one matrix'),
@@ -173,6 +178,11 @@ def instances(tier, seed):
             s = dict(s)
             sp = _simple_patterns(s)
             s['patterns'] = sp[:1] if (k_s+i_enc) % 2 == 0 else sp[:3]
+            if (s.get('name') or '').startswith('connecting'):
+                # the connecting pattern needs as many sources as targets in every existence pattern
+                from spec.conn import pattern as _pat
+                n_ = len(s['src'])
+                s['patterns'] = [sp[0], _pat(n_, n_, src_absent=[n_-1], tgt_absent=[n_-1])]
         out.append(dict(label=f'{k_s:04d} {kind}{i_enc} imp{i_imp} | {s.get("name") or ""} {pool.settings_label(s)} #{len(s["patterns"])}',
                         s=s, kind=kind, i_enc=i_enc, i_imp=i_imp))
 
@@ -206,7 +216,7 @@ def instances(tier, seed):
     if tier == 'quick':
         # settings written for one encoder family are always run with that family
         for sub, kind_ in (('recursive enumeration', 'enum'), ('assigning min 2', 'pattern'), ('assigning min 2', 'lazy'),
-                           ('partitioning', 'pattern'), ('11 matrices', 'eager')):
+                           ('partitioning', 'pattern'), ('11 matrices', 'eager'), ('connecting', 'pattern'), ('27 matrices', 'enum')):
             for f_idx, (kind, i_enc, _) in enumerate(facs):
                 if kind != kind_:
                     continue
